@@ -161,6 +161,12 @@ fn one_case(ctx: &Ctx, case: u64, l: &mut Local) {
     let class = cfg.profile.name();
     l.evals += 1;
     l.count(&format!("strategy.{}", cfg.strat.name()));
+    if s.strat.paths.iter().any(|p| p.ends_with('.') || p.contains("..")) {
+        l.count("custom.path-through-empty-name");
+    }
+    if s.strat.paths.iter().any(|p| p.starts_with("$.$")) {
+        l.count("custom.path-through-dollar-name");
+    }
     l.count(&format!("profile.{}", cfg.profile.name()));
     let input = || json!({"config": cfg.describe(), "claims": s.u, "strategy": s.strat.describe()});
     l.sample(case, input);
